@@ -5,7 +5,7 @@
 //!   layout  <mode> <orig> <v1> .. <vn>   parse original and every variant with the REAL parser;
 //!                                        per text: acceptance + 128-bit hash of the range-erased tree;
 //!                                        on a difference a short context of both dumps is added
-//!   lexpair <mode> <a> <b>               range-erased token streams of both texts (real lexer incl.
+//!   lexpair <mode> <a> <b> [cls cls cls] range-erased token streams of both texts (real lexer incl.
 //!                                        soft-keyword pass); same format as drv_c08 (Lean model)
 //!
 //! mode: m = Module, e = Expression, i = Interactive.
@@ -264,7 +264,8 @@ fn handle(ws: &[&str]) -> String {
             }
             layout(m, &texts)
         }
-        ["lexpair", m, a, b] => match (mode_of(m), unhex_str(a), unhex_str(b)) {
+        // the optional trailing arguments (Unicode classes for the model's parameters) are ignored here
+        ["lexpair", m, a, b, ..] => match (mode_of(m), unhex_str(a), unhex_str(b)) {
             (Some(m), Some(a), Some(b)) => {
                 let x = lex_erased(&a, m);
                 let y = lex_erased(&b, m);
